@@ -22,7 +22,7 @@ CONSTANTS
   FlushEntry = TRUE
   UnmapOnDrop = TRUE
   Linear = TRUE
-  MaxLives = 2
+  MaxLives = 1
   MaxInstalls = 3
   MaxCtr = 2
 CONSTRAINT Bound
